@@ -11,6 +11,7 @@
    the fuel argument independent of W. *)
 From Coq Require Import NArith List Bool Lia Relations.
 From DudV Require Import Base.Bytes Base.Json Model.Fs Model.Cache Model.Stage Model.Index.
+From DudV Require Model.System.
 Import ListNotations.
 
 (* ------------------------------------------------------------------------------------------ *)
@@ -732,3 +733,1617 @@ Section RunExt.
     left. reflexivity.
   Qed.
 End RunExt.
+
+(* ------------------------------------------------------------------------------------------ *)
+(* C08 for run_stage: the final theorems                                                       *)
+(* ------------------------------------------------------------------------------------------ *)
+Lemma path_clos_trans idx a b : path idx a b <-> clos_trans bytes (edge idx) a b.
+Proof.
+  rewrite clos_trans_t1n_iff. split.
+  - intros Hp. induction Hp as [a b Hab|a b c Hab Hp IH].
+    + apply t1n_step. exact Hab.
+    + eapply Relation_Operators.t1n_trans; eassumption.
+  - intros Hc. induction Hc as [a b Hab|a b c Hab Hc IH].
+    + apply path_one. exact Hab.
+    + eapply path_step; eassumption.
+Qed.
+
+Lemma NoDup_app_intro {A} (l1 l2 : list A) :
+  NoDup l1 -> NoDup l2 -> (forall x, In x l1 -> ~ In x l2) -> NoDup (l1 ++ l2).
+Proof.
+  induction l1 as [|x l1 IH]; simpl; intros H1 H2 Hd; [exact H2|].
+  inversion H1 as [|x' l' Hx H1']; subst. constructor.
+  - intros Hin. apply in_app_or in Hin as [Hin|Hin]; [contradiction|]. apply (Hd x); [left; reflexivity|exact Hin].
+  - apply IH; [exact H1'|exact H2|]. intros y Hy. apply Hd. right. exact Hy.
+Qed.
+
+Lemma earlier_app_l l r a b : earlier l a b -> earlier (l ++ r) a b.
+Proof.
+  induction l as [|s l IH]; simpl; [tauto|]. intros [[Hb Ha]|He].
+  - left. split; [exact Hb|]. apply in_or_app. left. exact Ha.
+  - right. apply IH. exact He.
+Qed.
+
+(* a starting state is consistent when the log is duplicate free and every logged stage is in ran *)
+Definition log_ok (ran : list (bytes * bool)) (log : list bytes) : Prop :=
+  NoDup log /\ forall s, In s log -> alookup s ran <> None.
+
+(* with the order part switched off, every consistent state satisfies the invariant *)
+Lemma W_any idx recursive ran log : log_ok ran log -> exists fin, W idx recursive False ran log fin.
+Proof.
+  intros [Hnd Hsub].
+  exists (log ++ filter (fun k => negb (mem k log)) (nodup bytes_dec (map fst ran))).
+  split.
+  - apply NoDup_app_intro; [exact Hnd|apply NoDup_filter; apply NoDup_nodup|].
+    intros x Hx Hf. apply filter_In in Hf as [_ Hf]. apply negb_true_iff in Hf.
+    apply mem_notIn in Hf. contradiction.
+  - intros s. rewrite in_app_iff, filter_In, nodup_In. split.
+    + intros [Hs|[Hs _]]; [apply Hsub; exact Hs|]. intros Hn. apply alookup_None_notIn in Hn. contradiction.
+    + intros Hs. destruct (mem s log) eqn:Hm; [left; apply mem_In; exact Hm|].
+      right. split; [|reflexivity].
+      destruct (in_dec bytes_dec s (map fst ran)) as [Hin|Hnin]; [exact Hin|].
+      apply alookup_None_notIn in Hnin. contradiction.
+  - intros HF. destruct HF.
+  - intros s Hs. apply in_or_app. left. exact Hs.
+  - exact Hnd.
+  - intros a b Hab. apply earlier_app_l. exact Hab.
+Qed.
+
+Section C08.
+  Variable H : bytes -> bytes.
+  Variable exec : bytes -> stage -> node -> cache -> res node.
+  Variable idx : index.
+  Variable c : cache.
+
+  Lemma run_targets_one recursive fuel t root ran log :
+    run_targets H exec idx c recursive fuel [t] (Ok (root, ran, log)) =
+    run_stage H exec fuel idx c recursive root ran log [] t.
+  Proof. reflexivity. Qed.
+
+  Lemma log_ok_nil : log_ok [] [].
+  Proof. split; [constructor|]. intros s Hs. destruct Hs. Qed.
+
+  (* ---- C08_once ---- *)
+  Theorem C08_once recursive fuel ts root ran log root' ran' log' :
+    log_ok ran log ->
+    run_targets H exec idx c recursive fuel ts (Ok (root, ran, log)) = Ok (root', ran', log') ->
+    log_ok ran' log'.
+  Proof.
+    intros Hok Hrun. destruct (W_any idx recursive ran log Hok) as [fin HW].
+    destruct (run_targets_post H exec idx c recursive False fuel ts _ _ _ _ _ _ _ HW Hrun) as [fin' [Hp _]].
+    pose proof (P_W _ _ _ _ _ _ _ _ _ _ _ Hp) as HW'. split.
+    - apply HW'.
+    - intros s Hs. apply (W_dom _ _ _ _ _ _ HW'). apply (W_log_sub _ _ _ _ _ _ HW'). exact Hs.
+  Qed.
+
+  Corollary C08_once_single recursive fuel t root root' ran' log' :
+    run_stage H exec fuel idx c recursive root [] [] [] t = Ok (root', ran', log') ->
+    NoDup log'.
+  Proof.
+    intros Hrun. rewrite <- run_targets_one in Hrun.
+    apply (C08_once _ _ _ _ _ _ _ _ _ log_ok_nil Hrun).
+  Qed.
+
+  (* ---- C08_scope ---- *)
+  Theorem C08_scope recursive fuel ts root ran log root' ran' log' s :
+    log_ok ran log ->
+    run_targets H exec idx c recursive fuel ts (Ok (root, ran, log)) = Ok (root', ran', log') ->
+    alookup s ran' <> None ->
+    alookup s ran <> None \/
+    exists t, In t ts /\ (if recursive then clos_refl_trans bytes (edge idx) s t else s = t).
+  Proof.
+    intros Hok Hrun Hs. destruct (W_any idx recursive ran log Hok) as [fin HW].
+    destruct (run_targets_post H exec idx c recursive False fuel ts _ _ _ _ _ _ _ HW Hrun) as [fin' [Hp _]].
+    pose proof (P_W _ _ _ _ _ _ _ _ _ _ _ Hp) as HW'.
+    apply (W_dom _ _ _ _ _ _ HW') in Hs.
+    destruct (P_fin _ _ _ _ _ _ _ _ _ _ _ Hp) as [e [He Hsc]]. rewrite He in Hs.
+    apply in_app_or in Hs as [Hs|Hs].
+    - right. destruct (Hsc s Hs) as [t [Ht Hin]]. exists t. split; [exact Ht|].
+      unfold in_scope in Hin. destruct recursive; [apply upstream_clos; exact Hin|exact Hin].
+    - left. apply (W_dom _ _ _ _ _ _ HW). exact Hs.
+  Qed.
+
+  Corollary C08_scope_single recursive fuel t root root' ran' log' s :
+    run_stage H exec fuel idx c recursive root [] [] [] t = Ok (root', ran', log') ->
+    alookup s ran' <> None ->
+    if recursive then clos_refl_trans bytes (edge idx) s t else s = t.
+  Proof.
+    intros Hrun Hs. rewrite <- run_targets_one in Hrun.
+    destruct (C08_scope _ _ _ _ _ _ _ _ _ s log_ok_nil Hrun Hs) as [Hn|[t' [[Ht'|Ht'] Hsc]]].
+    - exfalso. apply Hn. reflexivity.
+    - subst t'. exact Hsc.
+    - destruct Ht'.
+  Qed.
+
+  (* ---- the full invariant (recursive = true), as a predicate on the visible state ---- *)
+  Definition run_inv (ran : list (bytes * bool)) (log : list bytes) : Prop :=
+    exists fin, W idx true True ran log fin.
+
+  Lemma run_inv_init : run_inv [] [].
+  Proof. exists []. apply W_nil. Qed.
+
+  Lemma run_inv_log_ok ran log : run_inv ran log -> log_ok ran log.
+  Proof.
+    intros [fin HW]. split; [apply HW|]. intros s Hs.
+    apply (W_dom _ _ _ _ _ _ HW). apply (W_log_sub _ _ _ _ _ _ HW). exact Hs.
+  Qed.
+
+  Theorem run_inv_preserved fuel ts root ran log root' ran' log' :
+    run_inv ran log ->
+    run_targets H exec idx c true fuel ts (Ok (root, ran, log)) = Ok (root', ran', log') ->
+    run_inv ran' log'.
+  Proof.
+    intros [fin HW] Hrun.
+    destruct (run_targets_post H exec idx c true True fuel ts _ _ _ _ _ _ _ HW Hrun) as [fin' [Hp _]].
+    exists fin'. apply Hp.
+  Qed.
+
+  (* ---- C08_order ---- *)
+  Lemma W_order ran log fin a b :
+    W idx true True ran log fin -> edge idx a b -> In a log -> In b log -> earlier log a b.
+  Proof.
+    intros HW Hab Ha Hb.
+    pose proof (W_core _ _ _ _ _ _ HW I eq_refl) as Hc.
+    assert (Hfab : earlier fin a b).
+    { apply (core_owners _ _ Hc); [apply (W_log_sub _ _ _ _ _ _ HW); exact Hb|exact Hab]. }
+    destruct (bytes_dec a b) as [Heq|Hne].
+    { subst b. exfalso. eapply earlier_irrefl; [apply (W_nodup _ _ _ _ _ _ HW)|exact Hfab]. }
+    destruct (earlier_total log a b Ha Hb Hne) as [He|He]; [exact He|].
+    exfalso. apply (W_log_order _ _ _ _ _ _ HW) in He.
+    eapply earlier_irrefl; [apply (W_nodup _ _ _ _ _ _ HW)|].
+    eapply earlier_trans; [apply (W_nodup _ _ _ _ _ _ HW)|exact Hfab|exact He].
+  Qed.
+
+  (* if A owns an input of B and both were executed, A was executed strictly before B *)
+  Theorem C08_order fuel ts root ran log root' ran' log' a b :
+    run_inv ran log ->
+    run_targets H exec idx c true fuel ts (Ok (root, ran, log)) = Ok (root', ran', log') ->
+    edge idx a b -> In a log' -> In b log' ->
+    exists p q r, rev log' = p ++ a :: q ++ b :: r.
+  Proof.
+    intros Hinv Hrun Hab Ha Hb.
+    destruct (run_inv_preserved _ _ _ _ _ _ _ _ Hinv Hrun) as [fin' HW'].
+    apply earlier_rev. eapply W_order; eassumption.
+  Qed.
+
+  Corollary C08_order_single fuel t root root' ran' log' a b :
+    run_stage H exec fuel idx c true root [] [] [] t = Ok (root', ran', log') ->
+    edge idx a b -> In a log' -> In b log' ->
+    exists p q r, rev log' = p ++ a :: q ++ b :: r.
+  Proof.
+    intros Hrun. rewrite <- run_targets_one in Hrun.
+    apply (C08_order _ _ _ _ _ _ _ _ a b run_inv_init Hrun).
+  Qed.
+
+  (* the order in which stages entered [ran] (ghost list fin, newest first): every owner of an
+     input of a visited stage B entered ran strictly before B did, and B is executed (if at all)
+     at the moment it enters ran: the log order is the fin order *)
+  Theorem C08_finish_order fuel ts root ran log root' ran' log' :
+    run_inv ran log ->
+    run_targets H exec idx c true fuel ts (Ok (root, ran, log)) = Ok (root', ran', log') ->
+    exists fin,
+      NoDup fin /\
+      (forall s, In s fin <-> alookup s ran' <> None) /\
+      (forall s, In s log' -> In s fin) /\
+      (forall a b, earlier log' a b -> earlier fin a b) /\
+      (forall a b, In b fin -> edge idx a b -> earlier fin a b).
+  Proof.
+    intros Hinv Hrun. destruct (run_inv_preserved _ _ _ _ _ _ _ _ Hinv Hrun) as [fin' HW'].
+    exists fin'. split; [apply HW'|]. split; [apply HW'|]. split; [apply HW'|]. split; [apply HW'|].
+    apply (core_owners _ _ (W_core _ _ _ _ _ _ HW' I eq_refl)).
+  Qed.
+
+  (* the local form: run_stage (S f) on a fresh stage sp is [run_finish sp stg (run_ins ...)]
+     (lemma run_stage_S) and exec is only applied inside run_finish, to the state produced by
+     run_ins; in that state every owner of an input of sp is already in ran *)
+  Theorem C08_owners_before_exec f stack sp stg root ran log root1 ran1 log1 do1 :
+    run_inv ran log -> disj ran (sp :: stack) -> alookup sp idx = Some stg ->
+    run_ins H exec idx c true f (sp :: stack) (s_inputs stg) root ran log (do0_of H stg)
+      = Ok (root1, ran1, log1, do1) ->
+    forall a, edge idx a sp -> alookup a ran1 <> None.
+  Proof.
+    intros [fin HW] Hd Hstg Hins a [stg' [art [up [Hstg' [Hart Hfo]]]]].
+    rewrite Hstg in Hstg'. inversion Hstg'; subst stg'.
+    destruct (ins_post H exec idx c true True f (sp :: stack) sp stg
+                       (run_post H exec idx c true True f (sp :: stack)) Hstg _ _ _ _ _ fin _ _ _ _
+                       (incl_refl _) HW Hd Hins) as [fin1 [Hp1 Hown1]].
+    apply (W_dom _ _ _ _ _ _ (P_W _ _ _ _ _ _ _ _ _ _ _ Hp1)).
+    eapply Hown1; [reflexivity|exact Hart|exact Hfo].
+  Qed.
+
+  (* ---- C08_cycle ---- *)
+  (* a cycle at or upstream of the target makes run_stage fail (whatever the fuel) *)
+  Theorem C08_cycle fuel root ran log stack t a :
+    run_inv ran log -> disj ran stack ->
+    clos_refl_trans bytes (edge idx) a t -> clos_trans bytes (edge idx) a a ->
+    run_stage H exec fuel idx c true root ran log stack t = Err.
+  Proof.
+    intros [fin HW] Hd Hup Hcyc.
+    destruct (run_stage H exec fuel idx c true root ran log stack t) as [[[root' ran'] log']|] eqn:Hrun;
+      [|reflexivity].
+    exfalso.
+    destruct (run_post H exec idx c true True fuel stack _ _ _ _ _ _ _ _ HW Hd Hrun) as [fin' [Hp Ht]].
+    pose proof (W_core _ _ _ _ _ _ (P_W _ _ _ _ _ _ _ _ _ _ _ Hp) I eq_refl) as Hc.
+    apply upstream_clos in Hup. apply path_clos_trans in Hcyc.
+    eapply core_no_cycle_upstream; eassumption.
+  Qed.
+
+  Theorem C08_cycle_targets fuel ts root ran log t a :
+    run_inv ran log -> In t ts ->
+    clos_refl_trans bytes (edge idx) a t -> clos_trans bytes (edge idx) a a ->
+    run_targets H exec idx c true fuel ts (Ok (root, ran, log)) = Err.
+  Proof.
+    intros [fin HW] Ht Hup Hcyc.
+    destruct (run_targets H exec idx c true fuel ts (Ok (root, ran, log))) as [[[root' ran'] log']|] eqn:Hrun;
+      [|reflexivity].
+    exfalso.
+    destruct (run_targets_post H exec idx c true True fuel ts _ _ _ _ _ _ _ HW Hrun) as [fin' [Hp Hts]].
+    pose proof (W_core _ _ _ _ _ _ (P_W _ _ _ _ _ _ _ _ _ _ _ Hp) I eq_refl) as Hc.
+    apply upstream_clos in Hup. apply path_clos_trans in Hcyc.
+    eapply core_no_cycle_upstream; [exact Hc|apply Hts; exact Ht|exact Hup|exact Hcyc].
+  Qed.
+
+  (* no stage on a cycle is in the log (nor even in ran) of a successful run *)
+  Theorem C08_executed_not_on_cycle fuel ts root ran log root' ran' log' s :
+    run_inv ran log ->
+    run_targets H exec idx c true fuel ts (Ok (root, ran, log)) = Ok (root', ran', log') ->
+    (In s log' \/ alookup s ran' <> None) -> ~ clos_trans bytes (edge idx) s s.
+  Proof.
+    intros Hinv Hrun Hs Hcyc. destruct (run_inv_preserved _ _ _ _ _ _ _ _ Hinv Hrun) as [fin' HW'].
+    apply path_clos_trans in Hcyc.
+    eapply core_acyclic; [apply (W_core _ _ _ _ _ _ HW' I eq_refl)| |exact Hcyc].
+    destruct Hs as [Hs|Hs]; [apply (W_log_sub _ _ _ _ _ _ HW'); exact Hs|apply (W_dom _ _ _ _ _ _ HW'); exact Hs].
+  Qed.
+
+  (* exec is never applied to a stage on a cycle, in failing runs either: the result of the whole
+     traversal does not depend on what exec does on such stages.  (Taking for exec' the function
+     that fails on the stages of a set X of on-cycle stages gives the formulation "exec may as
+     well refuse every stage of X".) *)
+  Theorem C08_cycle_exec_irrelevant exec' fuel ts root ran log :
+    (forall sp stg root0, ~ clos_trans bytes (edge idx) sp sp -> exec sp stg root0 c = exec' sp stg root0 c) ->
+    run_inv ran log ->
+    run_targets H exec idx c true fuel ts (Ok (root, ran, log)) =
+    run_targets H exec' idx c true fuel ts (Ok (root, ran, log)).
+  Proof.
+    intros Hagree. assert (Hagree' : forall sp stg root0, ~ on_cycle idx sp -> exec sp stg root0 c = exec' sp stg root0 c).
+    { intros sp stg root0 Hn. apply Hagree. intros Hc. apply Hn. apply path_clos_trans. exact Hc. }
+    revert root ran log. induction ts as [|t r IH]; intros root ran log [fin HW]; [reflexivity|].
+    rewrite !run_targets_cons.
+    rewrite <- (run_ext H exec exec' idx c Hagree' fuel [] root ran log fin t HW (disj_nil ran)).
+    destruct (run_stage H exec fuel idx c true root ran log [] t) as [[[root1 ran1] log1]|] eqn:Hone.
+    - destruct (run_post H exec idx c true True fuel [] _ _ _ _ _ _ _ _ HW (disj_nil ran) Hone) as [fin1 [Hp1 _]].
+      apply IH. exists fin1. apply Hp1.
+    - rewrite !run_targets_Err. reflexivity.
+  Qed.
+
+  (* ---- C08_fuel ---- *)
+  Theorem C08_fuel recursive fuel' root ran log t :
+    (S (length idx) <= fuel')%nat ->
+    run_stage H exec fuel' idx c recursive root ran log [] t =
+    run_stage H exec (S (length idx)) idx c recursive root ran log [] t.
+  Proof.
+    intros Hle. apply run_fuel; [apply stack_ok_nil|simpl; lia|simpl; lia].
+  Qed.
+
+  Theorem C08_fuel_targets recursive fuel' ts init :
+    (S (length idx) <= fuel')%nat ->
+    run_targets H exec idx c recursive fuel' ts init =
+    run_targets H exec idx c recursive (S (length idx)) ts init.
+  Proof.
+    intros Hle. revert init. induction ts as [|t r IH]; intros init; [reflexivity|].
+    destruct init as [[[root ran] log]|].
+    - rewrite !run_targets_cons. rewrite (C08_fuel recursive fuel' root ran log t Hle). apply IH.
+    - rewrite !run_targets_Err. reflexivity.
+  Qed.
+
+  (* with enough fuel a cycle upstream of a target is the reason of the failure, and the failure
+     is the same at every larger fuel *)
+  Corollary C08_cycle_fuel fuel' root t a :
+    (S (length idx) <= fuel')%nat ->
+    clos_refl_trans bytes (edge idx) a t -> clos_trans bytes (edge idx) a a ->
+    run_stage H exec fuel' idx c true root [] [] [] t = Err.
+  Proof. intros _. apply C08_cycle; [apply run_inv_init|apply disj_nil]. Qed.
+End C08.
+
+Print Assumptions C08_once.
+Print Assumptions C08_once_single.
+Print Assumptions C08_scope.
+Print Assumptions C08_scope_single.
+Print Assumptions run_inv_preserved.
+Print Assumptions C08_order.
+Print Assumptions C08_order_single.
+Print Assumptions C08_finish_order.
+Print Assumptions C08_owners_before_exec.
+Print Assumptions C08_cycle.
+Print Assumptions C08_cycle_targets.
+Print Assumptions C08_executed_not_on_cycle.
+Print Assumptions C08_cycle_exec_irrelevant.
+Print Assumptions C08_fuel.
+Print Assumptions C08_fuel_targets.
+Print Assumptions C08_cycle_fuel.
+
+(* ------------------------------------------------------------------------------------------ *)
+(* non-vacuity: a 3-stage chain and a 2-cycle                                                  *)
+(* ------------------------------------------------------------------------------------------ *)
+Module Examples.
+  Local Open Scope N_scope.
+  Definition art (p : bytes) : artifact := mkArt [] p false false false.
+  Definition sA : bytes := [97].  Definition sB : bytes := [98].  Definition sC : bytes := [99].
+  Definition fx : bytes := [120]. Definition fy : bytes := [121]. Definition fz : bytes := [122].
+  Definition cmd : bytes := [116].
+
+  (* A: -> x ; B: x -> y ; C: y -> z *)
+  Definition chain : index :=
+    [ (sA, mkStage [] cmd [] [] [art fx]);
+      (sB, mkStage [] cmd [] [art fx] [art fy]);
+      (sC, mkStage [] cmd [] [art fy] [art fz]) ].
+
+  Definition idH : bytes -> bytes := fun b => b.
+  Definition ok_exec : bytes -> stage -> node -> cache -> res node := fun _ _ r _ => Ok r.
+
+  Example chain_edge_AB : edge chain sA sB.
+  Proof. exists (mkStage [] cmd [] [art fx] [art fy]), (art fx), (art fx). repeat split. left. reflexivity. Qed.
+  Example chain_edge_BC : edge chain sB sC.
+  Proof. exists (mkStage [] cmd [] [art fy] [art fz]), (art fy), (art fy). repeat split. left. reflexivity. Qed.
+
+  Example chain_run :
+    run_stage idH ok_exec (S (length chain)) chain [] true (Dir []) [] [] [] sC
+    = Ok (Dir [], [(sA, true); (sB, true); (sC, true)], [sC; sB; sA]).
+  Proof. vm_compute. reflexivity. Qed.
+
+  Example chain_run_single :
+    run_stage idH ok_exec (S (length chain)) chain [] false (Dir []) [] [] [] sC
+    = Ok (Dir [], [(sC, true)], [sC]).
+  Proof. vm_compute. reflexivity. Qed.
+
+  (* the premises of C08_order hold on the chain, and its conclusion is the expected one *)
+  Example chain_order : exists p q r, rev [sC; sB; sA] = p ++ sA :: q ++ sB :: r.
+  Proof.
+    apply (C08_order_single idH ok_exec chain [] _ sC (Dir []) _ _ _ sA sB chain_run chain_edge_AB);
+      simpl; tauto.
+  Qed.
+
+  (* P: q -> p ; Q: p -> q *)
+  Definition sP : bytes := [112]. Definition sQ : bytes := [113].
+  Definition fp : bytes := [117]. Definition fq : bytes := [118].
+  Definition cyc : index :=
+    [ (sP, mkStage [] cmd [] [art fq] [art fp]);
+      (sQ, mkStage [] cmd [] [art fp] [art fq]) ].
+
+  Example cyc_edge_PQ : edge cyc sP sQ.
+  Proof. exists (mkStage [] cmd [] [art fp] [art fq]), (art fp), (art fp). repeat split. left. reflexivity. Qed.
+  Example cyc_edge_QP : edge cyc sQ sP.
+  Proof. exists (mkStage [] cmd [] [art fq] [art fp]), (art fq), (art fq). repeat split. left. reflexivity. Qed.
+
+  Example cyc_on_cycle : clos_trans bytes (edge cyc) sP sP.
+  Proof. eapply t_trans; apply t_step; [exact cyc_edge_PQ|exact cyc_edge_QP]. Qed.
+
+  Example cyc_run : run_stage idH ok_exec (S (length cyc)) cyc [] true (Dir []) [] [] [] sP = Err.
+  Proof. vm_compute. reflexivity. Qed.
+
+  (* the same by the theorem (premises: P is the target itself and lies on a cycle) *)
+  Example cyc_run_thm : run_stage idH ok_exec (S (length cyc)) cyc [] true (Dir []) [] [] [] sP = Err.
+  Proof. apply (C08_cycle_fuel idH ok_exec cyc [] _ (Dir []) sP sP); [lia|apply rt_refl|exact cyc_on_cycle]. Qed.
+
+  (* with recursive = false a stage on a cycle IS executed: the cycle theorems need recursive = true *)
+  Example cyc_run_single :
+    run_stage idH ok_exec (S (length cyc)) cyc [] false (Dir []) [] [] [] sP = Ok (Dir [], [(sP, true)], [sP]).
+  Proof. vm_compute. reflexivity. Qed.
+End Examples.
+
+(* ------------------------------------------------------------------------------------------ *)
+(* checkout_stage: cycle => Err, fuel                                                          *)
+(* ------------------------------------------------------------------------------------------ *)
+Section Checkout.
+  Variable H : bytes -> bytes.
+  Variable idx : index.
+  Variable c : cache.
+  Variable strat : strategy.
+
+  Fixpoint co_ins (recursive : bool) (f : nat) (stack : list bytes) (arts : list artifact)
+           (root : node) (done : list bytes) : res (node * list bytes) :=
+    match arts with
+    | [] => Ok (root, done)
+    | a :: r =>
+      match find_owner idx (a_path a) with
+      | Some (op, _) =>
+        if recursive then
+          match checkout_stage H f idx c strat recursive root done stack op with
+          | Ok (root', done') => co_ins recursive f stack r root' done'
+          | Err => Err
+          end
+        else co_ins recursive f stack r root done
+      | None => co_ins recursive f stack r root done
+      end
+    end.
+
+  Lemma checkout_stage_S recursive f root done inprog sp :
+    checkout_stage H (S f) idx c strat recursive root done inprog sp =
+    if mem sp done then Ok (root, done)
+    else if mem sp inprog then Err
+    else match alookup sp idx with
+         | None => Err
+         | Some stg =>
+           match co_ins recursive f (sp :: inprog) (s_inputs stg) root done with
+           | Err => Err
+           | Ok (root1, done1) =>
+             match checkout_arts H 64 (s_outputs stg) root1 c strat with
+             | Ok root2 => Ok (root2, sp :: done1)
+             | Err => Err
+             end
+           end
+         end.
+  Proof.
+    cbn [checkout_stage].
+    destruct (mem sp done); [reflexivity|].
+    destruct (mem sp inprog); [reflexivity|].
+    destruct (alookup sp idx) as [stg|]; [|reflexivity].
+    match goal with
+    | |- match ?F _ _ _ with _ => _ end = _ =>
+      assert (Hins : forall arts root0 done0,
+                 F arts root0 done0 = co_ins recursive f (sp :: inprog) arts root0 done0)
+    end.
+    { induction arts as [|a r IH]; intros root0 done0; cbn [co_ins]; [reflexivity|].
+      destruct (find_owner idx (a_path a)) as [[op up]|]; [|apply IH].
+      destruct recursive; [|apply IH].
+      destruct (checkout_stage H f idx c strat true root0 done0 (sp :: inprog) op) as [[root' done']|];
+        [apply IH|reflexivity]. }
+    rewrite Hins. reflexivity.
+  Qed.
+
+  (* ---- fuel ---- *)
+  Lemma co_ins_fuel recursive f f' stack :
+    (forall root done sp,
+        checkout_stage H f idx c strat recursive root done stack sp =
+        checkout_stage H f' idx c strat recursive root done stack sp) ->
+    forall arts root done,
+      co_ins recursive f stack arts root done = co_ins recursive f' stack arts root done.
+  Proof.
+    intros IH. induction arts as [|a r IHr]; intros root done; cbn [co_ins]; [reflexivity|].
+    destruct (find_owner idx (a_path a)) as [[op up]|]; [|apply IHr].
+    destruct recursive; [|apply IHr]. rewrite IH.
+    destruct (checkout_stage H f' idx c strat true root done stack op) as [[root1 done1]|];
+      [apply IHr|reflexivity].
+  Qed.
+
+  Lemma checkout_fuel recursive : forall f f' stack root done sp,
+    stack_ok idx stack ->
+    (length idx < f + length stack)%nat -> (length idx < f' + length stack)%nat ->
+    checkout_stage H f idx c strat recursive root done stack sp =
+    checkout_stage H f' idx c strat recursive root done stack sp.
+  Proof.
+    induction f as [|f IH]; intros f' stack root done sp Hok Hf Hf'.
+    { exfalso. apply stack_ok_len in Hok. lia. }
+    destruct f' as [|f'].
+    { exfalso. apply stack_ok_len in Hok. lia. }
+    rewrite !checkout_stage_S.
+    destruct (mem sp done); [reflexivity|].
+    destruct (mem sp stack) eqn:Hmem; [reflexivity|].
+    destruct (alookup sp idx) as [stg|] eqn:Hstg; [|reflexivity].
+    rewrite (co_ins_fuel recursive f f' (sp :: stack)); [reflexivity|].
+    intros root0 done0 sp0. apply IH.
+    - eapply stack_ok_push; eassumption.
+    - simpl. lia.
+    - simpl. lia.
+  Qed.
+
+  (* ---- invariant (recursive = true): [done] itself is the finish order ---- *)
+  Definition cdisj (done stack : list bytes) : Prop := forall s, In s stack -> ~ In s done.
+
+  Definition co_spec (f : nat) (stack : list bytes) : Prop :=
+    forall root done sp root' done',
+      core idx done -> cdisj done stack ->
+      checkout_stage H f idx c strat true root done stack sp = Ok (root', done') ->
+      core idx done' /\ (exists e, done' = e ++ done) /\ cdisj done' stack /\ In sp done'.
+
+  Lemma co_ins_post f stack :
+    co_spec f stack ->
+    forall arts root done root' done',
+      core idx done -> cdisj done stack ->
+      co_ins true f stack arts root done = Ok (root', done') ->
+      core idx done' /\ (exists e, done' = e ++ done) /\ cdisj done' stack /\
+      (forall a op up, In a arts -> find_owner idx (a_path a) = Some (op, up) -> In op done').
+  Proof.
+    intros IH. induction arts as [|a r IHr]; intros root done root' done' Hc Hd Hrun; cbn [co_ins] in Hrun.
+    - inversion Hrun; subst. split; [exact Hc|]. split; [exists []; reflexivity|]. split; [exact Hd|].
+      intros a op up Ha. destruct Ha.
+    - destruct (find_owner idx (a_path a)) as [[op up]|] eqn:Hfo.
+      + destruct (checkout_stage H f idx c strat true root done stack op) as [[root1 done1]|] eqn:Hsub;
+          [|discriminate].
+        destruct (IH _ _ _ _ _ Hc Hd Hsub) as [Hc1 [[e1 He1] [Hd1 Hop]]].
+        destruct (IHr _ _ _ _ Hc1 Hd1 Hrun) as [Hc2 [[e2 He2] [Hd2 Hown2]]].
+        split; [exact Hc2|]. split; [exists (e2 ++ e1); subst; rewrite app_assoc; reflexivity|].
+        split; [exact Hd2|].
+        intros a' op' up' [Ha'|Ha'] Hfo'.
+        * subst a'. assert (Heq : op' = op) by congruence. rewrite Heq, He2.
+          apply in_or_app. right. exact Hop.
+        * eapply Hown2; eassumption.
+      + destruct (IHr _ _ _ _ Hc Hd Hrun) as [Hc2 [He2 [Hd2 Hown2]]].
+        split; [exact Hc2|]. split; [exact He2|]. split; [exact Hd2|].
+        intros a' op' up' [Ha'|Ha'] Hfo'; [subst a'; congruence|eapply Hown2; eassumption].
+  Qed.
+
+  Lemma co_post : forall f stack, co_spec f stack.
+  Proof.
+    induction f as [|f IH]; intros stack root done sp root' done' Hc Hd Hrun.
+    { simpl in Hrun. discriminate. }
+    rewrite checkout_stage_S in Hrun.
+    destruct (mem sp done) eqn:Hdone.
+    { inversion Hrun; subst. split; [exact Hc|]. split; [exists []; reflexivity|]. split; [exact Hd|].
+      apply mem_In. exact Hdone. }
+    destruct (mem sp stack) eqn:Hmem; [discriminate|].
+    destruct (alookup sp idx) as [stg|] eqn:Hstg; [|discriminate].
+    destruct (co_ins true f (sp :: stack) (s_inputs stg) root done) as [[root1 done1]|] eqn:Hins; [|discriminate].
+    destruct (checkout_arts H 64 (s_outputs stg) root1 c strat) as [root2|]; [|discriminate].
+    inversion Hrun; subst root' done'.
+    assert (Hd0 : cdisj done (sp :: stack)).
+    { intros s [Hs|Hs]; [subst s; apply mem_notIn; exact Hdone|apply Hd; exact Hs]. }
+    destruct (co_ins_post f (sp :: stack) (IH (sp :: stack)) _ _ _ _ _ Hc Hd0 Hins)
+      as [Hc1 [[e1 He1] [Hd1 Hown1]]].
+    split; [|split; [|split]].
+    - apply core_finish; [exact Hc1|apply Hd1; left; reflexivity|].
+      intros a [stg' [art [up [Hstg' [Hart Hfo]]]]].
+      rewrite Hstg in Hstg'. inversion Hstg'; subst stg'. eapply Hown1; eassumption.
+    - exists (sp :: e1). simpl. congruence.
+    - intros s Hs [Heq|Hin].
+      + subst s. apply mem_notIn in Hmem. contradiction.
+      + apply (Hd1 s); [right; exact Hs|exact Hin].
+    - left. reflexivity.
+  Qed.
+
+  Definition checkout_targets (recursive : bool) (fuel : nat) (ts : list bytes) (init : res (node * list bytes))
+    : res (node * list bytes) :=
+    fold_left (fun acc t =>
+                 match acc with
+                 | Ok (root, done) => checkout_stage H fuel idx c strat recursive root done [] t
+                 | Err => Err
+                 end) ts init.
+
+  Lemma checkout_targets_Err recursive fuel ts : checkout_targets recursive fuel ts Err = Err.
+  Proof. induction ts as [|t r IH]; [reflexivity|exact IH]. Qed.
+
+  Lemma cdisj_nil done : cdisj done [].
+  Proof. intros s Hs. destruct Hs. Qed.
+
+  Lemma checkout_targets_cons recursive fuel t r root done :
+    checkout_targets recursive fuel (t :: r) (Ok (root, done)) =
+    checkout_targets recursive fuel r (checkout_stage H fuel idx c strat recursive root done [] t).
+  Proof. reflexivity. Qed.
+
+  Lemma checkout_targets_post fuel : forall ts root done root' done',
+    core idx done ->
+    checkout_targets true fuel ts (Ok (root, done)) = Ok (root', done') ->
+    core idx done' /\ (exists e, done' = e ++ done) /\ forall t, In t ts -> In t done'.
+  Proof.
+    induction ts as [|t r IH]; intros root done root' done' Hc Hrun.
+    - inversion Hrun; subst. split; [exact Hc|]. split; [exists []; reflexivity|]. intros t Ht. destruct Ht.
+    - rewrite checkout_targets_cons in Hrun.
+      destruct (checkout_stage H fuel idx c strat true root done [] t) as [[root1 done1]|] eqn:Hone.
+      2:{ rewrite checkout_targets_Err in Hrun. discriminate. }
+      destruct (co_post fuel [] _ _ _ _ _ Hc (cdisj_nil done) Hone) as [Hc1 [[e1 He1] [_ Ht1]]].
+      destruct (IH _ _ _ _ Hc1 Hrun) as [Hc2 [[e2 He2] Hts2]]. split; [exact Hc2|].
+      split; [exists (e2 ++ e1); rewrite He2, He1; rewrite app_assoc; reflexivity|].
+      intros t' [Ht'|Ht']; [|apply Hts2; exact Ht'].
+      subst t'. rewrite He2. apply in_or_app. right. exact Ht1.
+  Qed.
+
+  (* ---- the theorems ---- *)
+  Theorem C08_checkout_cycle fuel root done stack t a :
+    core idx done -> cdisj done stack ->
+    clos_refl_trans bytes (edge idx) a t -> clos_trans bytes (edge idx) a a ->
+    checkout_stage H fuel idx c strat true root done stack t = Err.
+  Proof.
+    intros Hc Hd Hup Hcyc.
+    destruct (checkout_stage H fuel idx c strat true root done stack t) as [[root' done']|] eqn:Hrun;
+      [|reflexivity].
+    exfalso. destruct (co_post fuel stack _ _ _ _ _ Hc Hd Hrun) as [Hc' [_ [_ Ht]]].
+    apply upstream_clos in Hup. apply path_clos_trans in Hcyc.
+    eapply core_no_cycle_upstream; eassumption.
+  Qed.
+
+  (* as System.step (CCheckout) runs it: from done = [] over the list of targets *)
+  Theorem C08_checkout_cycle_targets fuel ts root t a :
+    In t ts -> clos_refl_trans bytes (edge idx) a t -> clos_trans bytes (edge idx) a a ->
+    checkout_targets true fuel ts (Ok (root, [])) = Err.
+  Proof.
+    intros Ht Hup Hcyc.
+    destruct (checkout_targets true fuel ts (Ok (root, []))) as [[root' done']|] eqn:Hrun; [|reflexivity].
+    exfalso. destruct (checkout_targets_post fuel ts _ _ _ _ (core_nil idx) Hrun) as [Hc' [_ Hts]].
+    apply upstream_clos in Hup. apply path_clos_trans in Hcyc.
+    eapply core_no_cycle_upstream; [exact Hc'|apply Hts; exact Ht|exact Hup|exact Hcyc].
+  Qed.
+
+  Theorem C08_checkout_fuel recursive fuel' root done t :
+    (S (length idx) <= fuel')%nat ->
+    checkout_stage H fuel' idx c strat recursive root done [] t =
+    checkout_stage H (S (length idx)) idx c strat recursive root done [] t.
+  Proof.
+    intros Hle. apply checkout_fuel; [apply stack_ok_nil|simpl; lia|simpl; lia].
+  Qed.
+
+  Theorem C08_checkout_fuel_targets recursive fuel' ts init :
+    (S (length idx) <= fuel')%nat ->
+    checkout_targets recursive fuel' ts init = checkout_targets recursive (S (length idx)) ts init.
+  Proof.
+    intros Hle. revert init. induction ts as [|t r IH]; intros init; [reflexivity|].
+    destruct init as [[root done]|].
+    - rewrite !checkout_targets_cons. rewrite (C08_checkout_fuel recursive fuel' root done t Hle). apply IH.
+    - rewrite !checkout_targets_Err. reflexivity.
+  Qed.
+End Checkout.
+
+Print Assumptions C08_checkout_cycle.
+Print Assumptions C08_checkout_cycle_targets.
+Print Assumptions C08_checkout_fuel.
+Print Assumptions C08_checkout_fuel_targets.
+
+(* ------------------------------------------------------------------------------------------ *)
+(* status_stage: cycle => Err, fuel                                                            *)
+(* ------------------------------------------------------------------------------------------ *)
+Definition adisj {A} (m : list (bytes * A)) (stack : list bytes) : Prop :=
+  forall s, In s stack -> alookup s m = None.
+
+Section Status.
+  Variable H : bytes -> bytes.
+  Variable idx : index.
+  Variable c : cache.
+  Variable root : node.
+
+  Fixpoint st_ins (f : nat) (stack : list bytes) (arts : list artifact) (out : list (bytes * sstatus))
+    : res (list artifact * list (bytes * sstatus)) :=
+    match arts with
+    | [] => Ok ([], out)
+    | a :: r =>
+      match find_owner idx (a_path a) with
+      | Some (op, _) =>
+        match status_stage H f idx c root out stack op with
+        | Ok out' => st_ins f stack r out'
+        | Err => Err
+        end
+      | None => match st_ins f stack r out with
+                | Ok (plain, out') => Ok (a :: plain, out')
+                | Err => Err
+                end
+      end
+    end.
+
+  Definition st_finish (sp : bytes) (stg : stage) (r : res (list artifact * list (bytes * sstatus)))
+    : res (list (bytes * sstatus)) :=
+    match r with
+    | Err => Err
+    | Ok (plain, out1) =>
+      match status_arts H plain root c, status_arts H (s_outputs stg) root c with
+      | Ok l1, Ok l2 =>
+        let has := match s_cs stg with [] => false | _ => true end in
+        Ok (ins_sorted sp (mkSS has (has && beqb (def_checksum H stg) (s_cs stg))
+                                (sort_kv (l1 ++ l2))) out1)
+      | _, _ => Err
+      end
+    end.
+
+  Lemma status_stage_S f out inprog sp :
+    status_stage H (S f) idx c root out inprog sp =
+    match alookup sp out with
+    | Some _ => Ok out
+    | None =>
+      if mem sp inprog then Err
+      else match alookup sp idx with
+           | None => Err
+           | Some stg => st_finish sp stg (st_ins f (sp :: inprog) (s_inputs stg) out)
+           end
+    end.
+  Proof.
+    cbn [status_stage].
+    destruct (alookup sp out) as [b|]; [reflexivity|].
+    destruct (mem sp inprog); [reflexivity|].
+    destruct (alookup sp idx) as [stg|]; [|reflexivity].
+    unfold st_finish.
+    match goal with
+    | |- match ?F _ _ with _ => _ end = _ =>
+      assert (Hins : forall arts out0, F arts out0 = st_ins f (sp :: inprog) arts out0)
+    end.
+    { induction arts as [|a r IH]; intros out0; cbn [st_ins]; [reflexivity|].
+      destruct (find_owner idx (a_path a)) as [[op up]|].
+      - destruct (status_stage H f idx c root out0 (sp :: inprog) op) as [out'|]; [apply IH|reflexivity].
+      - rewrite IH. reflexivity. }
+    rewrite Hins. reflexivity.
+  Qed.
+
+  Lemma st_finish_Ok sp stg r out' :
+    st_finish sp stg r = Ok out' ->
+    exists plain out1 v, r = Ok (plain, out1) /\ out' = ins_sorted sp v out1.
+  Proof.
+    unfold st_finish. destruct r as [[plain out1]|]; [|discriminate].
+    destruct (status_arts H plain root c) as [l1|]; [|discriminate].
+    destruct (status_arts H (s_outputs stg) root c) as [l2|]; [|discriminate].
+    intros Heq. inversion Heq. eexists _, _, _. split; reflexivity.
+  Qed.
+
+  (* ---- fuel ---- *)
+  Lemma st_ins_fuel f f' stack :
+    (forall out sp, status_stage H f idx c root out stack sp = status_stage H f' idx c root out stack sp) ->
+    forall arts out, st_ins f stack arts out = st_ins f' stack arts out.
+  Proof.
+    intros IH. induction arts as [|a r IHr]; intros out; cbn [st_ins]; [reflexivity|].
+    destruct (find_owner idx (a_path a)) as [[op up]|].
+    - rewrite IH. destruct (status_stage H f' idx c root out stack op) as [out'|]; [apply IHr|reflexivity].
+    - rewrite IHr. reflexivity.
+  Qed.
+
+  Lemma status_fuel : forall f f' stack out sp,
+    stack_ok idx stack ->
+    (length idx < f + length stack)%nat -> (length idx < f' + length stack)%nat ->
+    status_stage H f idx c root out stack sp = status_stage H f' idx c root out stack sp.
+  Proof.
+    induction f as [|f IH]; intros f' stack out sp Hok Hf Hf'.
+    { exfalso. apply stack_ok_len in Hok. lia. }
+    destruct f' as [|f'].
+    { exfalso. apply stack_ok_len in Hok. lia. }
+    rewrite !status_stage_S.
+    destruct (alookup sp out); [reflexivity|].
+    destruct (mem sp stack) eqn:Hmem; [reflexivity|].
+    destruct (alookup sp idx) as [stg|] eqn:Hstg; [|reflexivity].
+    rewrite (st_ins_fuel f f' (sp :: stack)); [reflexivity|].
+    intros out0 sp0. apply IH.
+    - eapply stack_ok_push; eassumption.
+    - simpl. lia.
+    - simpl. lia.
+  Qed.
+
+  (* ---- invariant: ghost finish order for [out] ---- *)
+  Definition Ws (out : list (bytes * sstatus)) (fin : list bytes) : Prop :=
+    core idx fin /\ forall s, In s fin <-> alookup s out <> None.
+
+  Lemma Ws_nil : Ws [] [].
+  Proof.
+    split; [apply core_nil|]. intros s. simpl. split; [intros Hf; destruct Hf|intros Hn; apply Hn; reflexivity].
+  Qed.
+
+  Lemma Ws_finish out fin sp v :
+    Ws out fin -> alookup sp out = None -> (forall a, edge idx a sp -> In a fin) ->
+    Ws (ins_sorted sp v out) (sp :: fin).
+  Proof.
+    intros [Hc Hdom] Hsp Hown.
+    assert (Hnotfin : ~ In sp fin).
+    { intros Hin. apply Hdom in Hin. contradiction. }
+    split; [apply core_finish; assumption|].
+    intros s. destruct (bytes_dec s sp) as [Heq|Hne].
+    - subst s. rewrite alookup_ins_same. split; [discriminate|]. intros _. left. reflexivity.
+    - rewrite alookup_ins_other by exact Hne. rewrite <- Hdom. simpl. split.
+      + intros [Heq|Hin]; [congruence|exact Hin].
+      + intros Hin. right. exact Hin.
+  Qed.
+
+  Definition st_spec (f : nat) (stack : list bytes) : Prop :=
+    forall out fin sp out',
+      Ws out fin -> adisj out stack ->
+      status_stage H f idx c root out stack sp = Ok out' ->
+      exists fin', Ws out' fin' /\ (exists e, fin' = e ++ fin) /\ adisj out' stack /\ In sp fin'.
+
+  Lemma st_ins_post f stack :
+    st_spec f stack ->
+    forall arts out fin plain out',
+      Ws out fin -> adisj out stack ->
+      st_ins f stack arts out = Ok (plain, out') ->
+      exists fin', Ws out' fin' /\ (exists e, fin' = e ++ fin) /\ adisj out' stack /\
+        (forall a op up, In a arts -> find_owner idx (a_path a) = Some (op, up) -> In op fin').
+  Proof.
+    intros IH. induction arts as [|a r IHr]; intros out fin plain out' HW Hd Hrun; cbn [st_ins] in Hrun.
+    - inversion Hrun; subst. exists fin. split; [exact HW|]. split; [exists []; reflexivity|].
+      split; [exact Hd|]. intros a op up Ha. destruct Ha.
+    - destruct (find_owner idx (a_path a)) as [[op up]|] eqn:Hfo.
+      + destruct (status_stage H f idx c root out stack op) as [out1|] eqn:Hsub; [|discriminate].
+        destruct (IH _ _ _ _ HW Hd Hsub) as [fin1 [HW1 [[e1 He1] [Hd1 Hop]]]].
+        destruct (IHr _ _ _ _ HW1 Hd1 Hrun) as [fin2 [HW2 [[e2 He2] [Hd2 Hown2]]]].
+        exists fin2. split; [exact HW2|].
+        split; [exists (e2 ++ e1); rewrite He2, He1; rewrite app_assoc; reflexivity|].
+        split; [exact Hd2|].
+        intros a' op' up' [Ha'|Ha'] Hfo'.
+        * subst a'. assert (Heq : op' = op) by congruence. rewrite Heq, He2.
+          apply in_or_app. right. exact Hop.
+        * eapply Hown2; eassumption.
+      + destruct (st_ins f stack r out) as [[plain2 out2]|] eqn:Hrest; [|discriminate].
+        inversion Hrun; subst plain out'.
+        destruct (IHr _ _ _ _ HW Hd Hrest) as [fin2 [HW2 [He2 [Hd2 Hown2]]]].
+        exists fin2. split; [exact HW2|]. split; [exact He2|]. split; [exact Hd2|].
+        intros a' op' up' [Ha'|Ha'] Hfo'; [subst a'; congruence|eapply Hown2; eassumption].
+  Qed.
+
+  Lemma st_post : forall f stack, st_spec f stack.
+  Proof.
+    induction f as [|f IH]; intros stack out fin sp out' HW Hd Hrun.
+    { simpl in Hrun. discriminate. }
+    rewrite status_stage_S in Hrun.
+    destruct (alookup sp out) as [b|] eqn:Hout.
+    { inversion Hrun; subst. exists fin. split; [exact HW|]. split; [exists []; reflexivity|].
+      split; [exact Hd|]. apply (proj2 HW). rewrite Hout. discriminate. }
+    destruct (mem sp stack) eqn:Hmem; [discriminate|].
+    destruct (alookup sp idx) as [stg|] eqn:Hstg; [|discriminate].
+    apply st_finish_Ok in Hrun as [plain [out1 [v [Hins Hout']]]]. subst out'.
+    assert (Hd0 : adisj out (sp :: stack)).
+    { intros s [Hs|Hs]; [subst s; exact Hout|apply Hd; exact Hs]. }
+    destruct (st_ins_post f (sp :: stack) (IH (sp :: stack)) _ _ _ _ _ HW Hd0 Hins)
+      as [fin1 [HW1 [[e1 He1] [Hd1 Hown1]]]].
+    exists (sp :: fin1). split; [|split; [|split]].
+    - apply Ws_finish; [exact HW1|apply Hd1; left; reflexivity|].
+      intros a [stg' [art [up [Hstg' [Hart Hfo]]]]].
+      rewrite Hstg in Hstg'. inversion Hstg'; subst stg'. eapply Hown1; eassumption.
+    - exists (sp :: e1). simpl. congruence.
+    - intros s Hs. assert (Hne : s <> sp).
+      { intros Heq. subst s. apply mem_notIn in Hmem. contradiction. }
+      rewrite alookup_ins_other by exact Hne. apply Hd1. right. exact Hs.
+    - left. reflexivity.
+  Qed.
+
+  Definition status_targets (fuel : nat) (ts : list bytes) (init : res (list (bytes * sstatus)))
+    : res (list (bytes * sstatus)) :=
+    fold_left (fun acc t =>
+                 match acc with
+                 | Ok out => status_stage H fuel idx c root out [] t
+                 | Err => Err
+                 end) ts init.
+
+  Lemma status_targets_Err fuel ts : status_targets fuel ts Err = Err.
+  Proof. induction ts as [|t r IH]; [reflexivity|exact IH]. Qed.
+
+  Lemma status_targets_cons fuel t r out :
+    status_targets fuel (t :: r) (Ok out) = status_targets fuel r (status_stage H fuel idx c root out [] t).
+  Proof. reflexivity. Qed.
+
+  Lemma adisj_nil {A} (m : list (bytes * A)) : adisj m [].
+  Proof. intros s Hs. destruct Hs. Qed.
+
+  Lemma status_targets_post fuel : forall ts out fin out',
+    Ws out fin -> status_targets fuel ts (Ok out) = Ok out' ->
+    exists fin', Ws out' fin' /\ (exists e, fin' = e ++ fin) /\ forall t, In t ts -> In t fin'.
+  Proof.
+    induction ts as [|t r IH]; intros out fin out' HW Hrun.
+    - inversion Hrun; subst. exists fin. split; [exact HW|]. split; [exists []; reflexivity|].
+      intros t Ht. destruct Ht.
+    - rewrite status_targets_cons in Hrun.
+      destruct (status_stage H fuel idx c root out [] t) as [out1|] eqn:Hone.
+      2:{ rewrite status_targets_Err in Hrun. discriminate. }
+      destruct (st_post fuel [] _ _ _ _ HW (adisj_nil out) Hone) as [fin1 [HW1 [[e1 He1] [_ Ht1]]]].
+      destruct (IH _ _ _ HW1 Hrun) as [fin2 [HW2 [[e2 He2] Hts2]]].
+      exists fin2. split; [exact HW2|].
+      split; [exists (e2 ++ e1); rewrite He2, He1; rewrite app_assoc; reflexivity|].
+      intros t' [Ht'|Ht']; [|apply Hts2; exact Ht'].
+      subst t'. rewrite He2. apply in_or_app. right. exact Ht1.
+  Qed.
+
+  (* ---- the theorems ---- *)
+  Definition status_inv (out : list (bytes * sstatus)) : Prop := exists fin, Ws out fin.
+
+  Theorem C08_status_cycle fuel out stack t a :
+    status_inv out -> adisj out stack ->
+    clos_refl_trans bytes (edge idx) a t -> clos_trans bytes (edge idx) a a ->
+    status_stage H fuel idx c root out stack t = Err.
+  Proof.
+    intros [fin HW] Hd Hup Hcyc.
+    destruct (status_stage H fuel idx c root out stack t) as [out'|] eqn:Hrun; [|reflexivity].
+    exfalso. destruct (st_post fuel stack _ _ _ _ HW Hd Hrun) as [fin' [[Hc' _] [_ [_ Ht]]]].
+    apply upstream_clos in Hup. apply path_clos_trans in Hcyc.
+    eapply core_no_cycle_upstream; eassumption.
+  Qed.
+
+  (* as System.step (CStatus) runs it: from out = [] over the list of targets *)
+  Theorem C08_status_cycle_targets fuel ts t a :
+    In t ts -> clos_refl_trans bytes (edge idx) a t -> clos_trans bytes (edge idx) a a ->
+    status_targets fuel ts (Ok []) = Err.
+  Proof.
+    intros Ht Hup Hcyc.
+    destruct (status_targets fuel ts (Ok [])) as [out'|] eqn:Hrun; [|reflexivity].
+    exfalso. destruct (status_targets_post fuel ts _ _ _ Ws_nil Hrun) as [fin' [[Hc' _] [_ Hts]]].
+    apply upstream_clos in Hup. apply path_clos_trans in Hcyc.
+    eapply core_no_cycle_upstream; [exact Hc'|apply Hts; exact Ht|exact Hup|exact Hcyc].
+  Qed.
+
+  Theorem C08_status_fuel fuel' out t :
+    (S (length idx) <= fuel')%nat ->
+    status_stage H fuel' idx c root out [] t = status_stage H (S (length idx)) idx c root out [] t.
+  Proof.
+    intros Hle. apply status_fuel; [apply stack_ok_nil|simpl; lia|simpl; lia].
+  Qed.
+
+  Theorem C08_status_fuel_targets fuel' ts init :
+    (S (length idx) <= fuel')%nat ->
+    status_targets fuel' ts init = status_targets (S (length idx)) ts init.
+  Proof.
+    intros Hle. revert init. induction ts as [|t r IH]; intros init; [reflexivity|].
+    destruct init as [out|].
+    - rewrite !status_targets_cons. rewrite (C08_status_fuel fuel' out t Hle). apply IH.
+    - rewrite !status_targets_Err. reflexivity.
+  Qed.
+End Status.
+
+Print Assumptions C08_status_cycle.
+Print Assumptions C08_status_cycle_targets.
+Print Assumptions C08_status_fuel.
+Print Assumptions C08_status_fuel_targets.
+
+(* ------------------------------------------------------------------------------------------ *)
+(* commit_stage: fuel (the index is rewritten during the traversal, its key set is not)        *)
+(* ------------------------------------------------------------------------------------------ *)
+Lemma ins_sorted_keys {A} k (v : A) l x :
+  In x (map fst (ins_sorted k v l)) -> x = k \/ In x (map fst l).
+Proof.
+  induction l as [|[k2 v2] r IH]; simpl.
+  - intros [Hx|Hx]; [left; congruence|destruct Hx].
+  - destruct (beqb k k2) eqn:Hk.
+    + simpl. intros [Hx|Hx]; [left; congruence|right; right; exact Hx].
+    + destruct (bltb k k2); simpl.
+      * intros [Hx|[Hx|Hx]]; [left; congruence|right; left; exact Hx|right; right; exact Hx].
+      * intros [Hx|Hx]; [right; left; exact Hx|].
+        destruct (IH Hx) as [Hxk|Hxr]; [left; exact Hxk|right; right; exact Hxr].
+Qed.
+
+Section Commit.
+  Variable H : bytes -> bytes.
+  Variable strat : strategy.
+
+  Definition cm_acc := (list artifact * list artifact * istate * list bytes)%type.
+
+  Fixpoint cm_ins (f : nat) (stack : list bytes) (arts : list artifact) (st : istate) (done : list bytes)
+    : res cm_acc :=
+    match arts with
+    | [] => Ok ([], [], st, done)
+    | a :: r =>
+      match find_owner (i_idx st) (a_path a) with
+      | None =>
+        match cm_ins f stack r st done with
+        | Ok (owned, plain, st', done') => Ok (owned, a :: plain, st', done')
+        | Err => Err
+        end
+      | Some (op, _) =>
+        match commit_stage H f st strat done stack op with
+        | Err => Err
+        | Ok (st1, done1) =>
+          let cs := match find_owner (i_idx st1) (a_path a) with
+                    | Some (_, up) => a_cs up | None => a_cs a end in
+          match cm_ins f stack r st1 done1 with
+          | Ok (owned, plain, st', done') => Ok (set_cs a cs :: owned, plain, st', done')
+          | Err => Err
+          end
+        end
+      end
+    end.
+
+  Definition cm_finish (sp : bytes) (stg : stage) (r : res cm_acc) : res (istate * list bytes) :=
+    match r with
+    | Err => Err
+    | Ok (owned, plain, st1, done1) =>
+      match commit_arts H plain true (i_root st1) (i_cache st1) strat with
+      | Err => Err
+      | Ok (plain', root2, c2) =>
+        match commit_arts H (s_outputs stg) false root2 c2 strat with
+        | Err => Err
+        | Ok (outs', root3, c3) =>
+          let inputs' := fold_left art_set (owned ++ plain') (s_inputs stg) in
+          let stg1 := mkStage (s_cs stg) (s_cmd stg) (s_wd stg) inputs' outs' in
+          let stg2 := mkStage (def_checksum H stg1) (s_cmd stg) (s_wd stg) inputs' outs' in
+          Ok (mkI (set_stage (i_idx st1) sp stg2) root3 c3, sp :: done1)
+        end
+      end
+    end.
+
+  Lemma commit_stage_S f st done inprog sp :
+    commit_stage H (S f) st strat done inprog sp =
+    if mem sp done then Ok (st, done)
+    else if mem sp inprog then Err
+    else match alookup sp (i_idx st) with
+         | None => Err
+         | Some stg => cm_finish sp stg (cm_ins f (sp :: inprog) (s_inputs stg) st done)
+         end.
+  Proof.
+    cbn [commit_stage].
+    destruct (mem sp done); [reflexivity|].
+    destruct (mem sp inprog); [reflexivity|].
+    destruct (alookup sp (i_idx st)) as [stg|]; [|reflexivity].
+    unfold cm_finish.
+    match goal with
+    | |- match ?F _ _ _ with _ => _ end = _ =>
+      assert (Hins : forall arts st0 done0, F arts st0 done0 = cm_ins f (sp :: inprog) arts st0 done0)
+    end.
+    { induction arts as [|a r IH]; intros st0 done0; cbn [cm_ins]; [reflexivity|].
+      destruct (find_owner (i_idx st0) (a_path a)) as [[op up]|].
+      - destruct (commit_stage H f st0 strat done0 (sp :: inprog) op) as [[st1 done1]|]; [|reflexivity].
+        rewrite IH. reflexivity.
+      - rewrite IH. reflexivity. }
+    rewrite Hins. reflexivity.
+  Qed.
+
+  Lemma cm_finish_Ok sp stg r st' done' :
+    cm_finish sp stg r = Ok (st', done') ->
+    exists owned plain st1 done1 stg2 root3 c3,
+      r = Ok (owned, plain, st1, done1) /\
+      st' = mkI (set_stage (i_idx st1) sp stg2) root3 c3 /\ done' = sp :: done1.
+  Proof.
+    unfold cm_finish. destruct r as [[[[owned plain] st1] done1]|]; [|discriminate].
+    destruct (commit_arts H plain true (i_root st1) (i_cache st1) strat) as [[[plain' root2] c2]|]; [|discriminate].
+    destruct (commit_arts H (s_outputs stg) false root2 c2 strat) as [[[outs' root3] c3]|]; [|discriminate].
+    intros Heq. inversion Heq. eexists _, _, _, _, _, _, _. repeat split.
+  Qed.
+
+  (* the keys of the index stay inside a fixed list ks *)
+  Variable ks : list bytes.
+  Definition kincl (st : istate) : Prop := incl (map fst (i_idx st)) ks.
+
+  Lemma cm_ins_keys f stack :
+    (forall st done sp st' done',
+        commit_stage H f st strat done stack sp = Ok (st', done') -> kincl st -> kincl st') ->
+    forall arts st done owned plain st' done',
+      cm_ins f stack arts st done = Ok (owned, plain, st', done') -> kincl st -> kincl st'.
+  Proof.
+    intros IH. induction arts as [|a r IHr]; intros st done owned plain st' done' Hrun Hk; cbn [cm_ins] in Hrun.
+    - inversion Hrun; subst. exact Hk.
+    - destruct (find_owner (i_idx st) (a_path a)) as [[op up]|].
+      + destruct (commit_stage H f st strat done stack op) as [[st1 done1]|] eqn:Hsub; [|discriminate].
+        destruct (cm_ins f stack r st1 done1) as [[[[owned2 plain2] st2] done2]|] eqn:Hrest; [|discriminate].
+        inversion Hrun; subst. eapply IHr; [exact Hrest|]. eapply IH; eassumption.
+      + destruct (cm_ins f stack r st done) as [[[[owned2 plain2] st2] done2]|] eqn:Hrest; [|discriminate].
+        inversion Hrun; subst. eapply IHr; eassumption.
+  Qed.
+
+  Lemma commit_keys : forall f stack st done sp st' done',
+    commit_stage H f st strat done stack sp = Ok (st', done') -> kincl st -> kincl st'.
+  Proof.
+    induction f as [|f IH]; intros stack st done sp st' done' Hrun Hk.
+    { simpl in Hrun. discriminate. }
+    rewrite commit_stage_S in Hrun.
+    destruct (mem sp done); [inversion Hrun; subst; exact Hk|].
+    destruct (mem sp stack); [discriminate|].
+    destruct (alookup sp (i_idx st)) as [stg|] eqn:Hstg; [|discriminate].
+    apply cm_finish_Ok in Hrun as [owned [plain [st1 [done1 [stg2 [root3 [c3 [Hins [Hst' _]]]]]]]]].
+    pose proof (cm_ins_keys f (sp :: stack) (IH (sp :: stack)) _ _ _ _ _ _ _ Hins Hk) as Hk1.
+    subst st'. unfold kincl, set_stage. simpl. intros x Hx.
+    apply ins_sorted_keys in Hx as [Hx|Hx]; [|apply Hk1; exact Hx].
+    subst x. apply Hk. eapply alookup_Some_In. exact Hstg.
+  Qed.
+
+  Definition kstack_ok (stack : list bytes) : Prop := NoDup stack /\ incl stack ks.
+
+  Lemma cm_ins_fuel f f' stack :
+    (forall st done sp, kincl st ->
+        commit_stage H f st strat done stack sp = commit_stage H f' st strat done stack sp) ->
+    forall arts st done, kincl st -> cm_ins f stack arts st done = cm_ins f' stack arts st done.
+  Proof.
+    intros IH. induction arts as [|a r IHr]; intros st done Hk; cbn [cm_ins]; [reflexivity|].
+    destruct (find_owner (i_idx st) (a_path a)) as [[op up]|].
+    - rewrite (IH _ _ _ Hk).
+      destruct (commit_stage H f' st strat done stack op) as [[st1 done1]|] eqn:Hsub; [|reflexivity].
+      rewrite IHr; [reflexivity|]. eapply commit_keys; eassumption.
+    - rewrite (IHr _ _ Hk). reflexivity.
+  Qed.
+
+  Lemma commit_fuel : forall f f' stack st done sp,
+    kincl st -> kstack_ok stack ->
+    (length ks < f + length stack)%nat -> (length ks < f' + length stack)%nat ->
+    commit_stage H f st strat done stack sp = commit_stage H f' st strat done stack sp.
+  Proof.
+    induction f as [|f IH]; intros f' stack st done sp Hk [Hnd Hincl] Hf Hf'.
+    { exfalso. pose proof (NoDup_incl_length Hnd Hincl). lia. }
+    destruct f' as [|f'].
+    { exfalso. pose proof (NoDup_incl_length Hnd Hincl). lia. }
+    rewrite !commit_stage_S.
+    destruct (mem sp done); [reflexivity|].
+    destruct (mem sp stack) eqn:Hmem; [reflexivity|].
+    destruct (alookup sp (i_idx st)) as [stg|] eqn:Hstg; [|reflexivity].
+    rewrite (cm_ins_fuel f f' (sp :: stack)); [reflexivity| |exact Hk].
+    intros st0 done0 sp0 Hk0. apply IH.
+    - exact Hk0.
+    - split.
+      + constructor; [apply mem_notIn; exact Hmem|exact Hnd].
+      + intros x [Hx|Hx]; [subst x; apply Hk; eapply alookup_Some_In; exact Hstg|apply Hincl; exact Hx].
+    - simpl. lia.
+    - simpl. lia.
+  Qed.
+
+  Definition commit_targets (fuel : nat) (ts : list bytes) (init : res (istate * list bytes))
+    : res (istate * list bytes) :=
+    fold_left (fun acc t =>
+                 match acc with
+                 | Ok (st, done) => commit_stage H fuel st strat done [] t
+                 | Err => Err
+                 end) ts init.
+
+  Lemma commit_targets_Err fuel ts : commit_targets fuel ts Err = Err.
+  Proof. induction ts as [|t r IH]; [reflexivity|exact IH]. Qed.
+
+  Lemma commit_targets_cons fuel t r st done :
+    commit_targets fuel (t :: r) (Ok (st, done)) =
+    commit_targets fuel r (commit_stage H fuel st strat done [] t).
+  Proof. reflexivity. Qed.
+
+  Lemma commit_targets_fuel fuel' : forall ts st done,
+    kincl st -> (S (length ks) <= fuel')%nat ->
+    commit_targets fuel' ts (Ok (st, done)) = commit_targets (S (length ks)) ts (Ok (st, done)).
+  Proof.
+    induction ts as [|t r IH]; intros st done Hk Hle; [reflexivity|].
+    rewrite !commit_targets_cons.
+    rewrite (commit_fuel fuel' (S (length ks)) [] st done t Hk);
+      [|split; [constructor|intros x Hx; destruct Hx]|simpl; lia|simpl; lia].
+    destruct (commit_stage H (S (length ks)) st strat done [] t) as [[st1 done1]|] eqn:Hone.
+    - apply IH; [|exact Hle]. eapply commit_keys; eassumption.
+    - rewrite !commit_targets_Err. reflexivity.
+  Qed.
+End Commit.
+
+(* fuel = S (length idx) of the index the command starts with (System.fuel_of) is enough, for
+   every target of the fold although the index is rewritten between (and during) the targets *)
+Theorem C08_commit_fuel H strat fuel' st done t :
+  (S (length (i_idx st)) <= fuel')%nat ->
+  commit_stage H fuel' st strat done [] t = commit_stage H (S (length (i_idx st))) st strat done [] t.
+Proof.
+  intros Hle. apply (commit_fuel H strat (map fst (i_idx st))).
+  - intros x Hx. exact Hx.
+  - split; [constructor|intros x Hx; destruct Hx].
+  - rewrite map_length. simpl. lia.
+  - rewrite map_length. simpl. lia.
+Qed.
+
+Theorem C08_commit_fuel_targets H strat fuel' ts st done :
+  (S (length (i_idx st)) <= fuel')%nat ->
+  commit_targets H strat fuel' ts (Ok (st, done)) =
+  commit_targets H strat (S (length (i_idx st))) ts (Ok (st, done)).
+Proof.
+  intros Hle. pose proof (commit_targets_fuel H strat (map fst (i_idx st)) fuel' ts st done) as Hf.
+  rewrite map_length in Hf. apply Hf; [intros x Hx; exact Hx|exact Hle].
+Qed.
+
+Print Assumptions C08_commit_fuel.
+Print Assumptions C08_commit_fuel_targets.
+
+(* ------------------------------------------------------------------------------------------ *)
+(* the folds above are the ones System.step performs (fuel = System.fuel_of idx = S (length idx)) *)
+(* ------------------------------------------------------------------------------------------ *)
+Section Bridge.
+  Variable H : bytes -> bytes.
+  Variable sems : list (bytes * System.cmdsem).
+  Variable w : System.world.
+  Variable idx : index.
+  Hypothesis unlocked : System.w_lock w = false.
+  Hypothesis loaded : load_index (System.w_index w) (System.w_stages w) [] = Some idx.
+
+  Lemma step_CRun targets single :
+    idx <> [] ->
+    System.step H sems w (System.CRun targets single) =
+    match run_targets H (System.exec sems) idx (System.w_cache w) (negb single) (System.fuel_of idx)
+                      (System.all_or targets idx) (Ok (System.w_root w, [], [])) with
+    | Ok (root, _, log) =>
+      (System.mkW root (System.w_cache w) (System.w_stages w) (System.w_index w) false, true,
+       System.ORun (rev log))
+    | Err => (w, false, System.ONone)
+    end.
+  Proof.
+    intros Hne. unfold System.step. rewrite unlocked, loaded.
+    destruct idx as [|e r]; [contradiction|reflexivity].
+  Qed.
+
+  Lemma step_CCheckout targets copy single :
+    idx <> [] ->
+    System.step H sems w (System.CCheckout targets copy single) =
+    match checkout_targets H idx (System.w_cache w) (System.strat_of copy)
+                           (match targets with [] => true | _ => negb single end)
+                           (System.fuel_of idx) (System.all_or targets idx) (Ok (System.w_root w, [])) with
+    | Ok (root, _) =>
+      (System.mkW root (System.w_cache w) (System.w_stages w) (System.w_index w) false, true, System.ONone)
+    | Err => (w, false, System.ONone)
+    end.
+  Proof.
+    intros Hne. unfold System.step. rewrite unlocked, loaded.
+    destruct idx as [|e r]; [contradiction|reflexivity].
+  Qed.
+
+  Lemma step_CStatus targets :
+    idx <> [] ->
+    System.step H sems w (System.CStatus targets) =
+    match status_targets H idx (System.w_cache w) (System.w_root w) (System.fuel_of idx)
+                         (System.all_or targets idx) (Ok []) with
+    | Ok out => (w, true, System.OStatus out)
+    | Err => (w, false, System.ONone)
+    end.
+  Proof.
+    intros Hne. unfold System.step. rewrite unlocked, loaded.
+    destruct idx as [|e r]; [contradiction|reflexivity].
+  Qed.
+
+  Lemma step_CCommit targets copy :
+    System.all_or targets idx <> [] ->
+    System.step H sems w (System.CCommit targets copy) =
+    match commit_targets H (System.strat_of copy) (System.fuel_of idx) (System.all_or targets idx)
+                         (Ok (mkI idx (System.w_root w) (System.w_cache w), [])) with
+    | Ok (st, done) =>
+      (System.mkW (i_root st) (i_cache st) (System.write_back (System.w_stages w) (i_idx st) done)
+                  (System.w_index w) false, true, System.ONone)
+    | Err => (w, false, System.ONone)
+    end.
+  Proof.
+    intros Hne. unfold System.step. rewrite unlocked, loaded.
+    destruct (System.all_or targets idx) as [|t r]; [contradiction|reflexivity].
+  Qed.
+
+  (* C08 at the level of one [dud run] command: the printed execution log has no duplicates, and
+     respects the dependency order when the run is recursive *)
+  Theorem C08_step_run targets single w' log :
+    System.step H sems w (System.CRun targets single) = (w', true, System.ORun log) ->
+    NoDup log /\
+    (single = false -> forall a b, edge idx a b -> In a log -> In b log ->
+                                   exists p q r, log = p ++ a :: q ++ b :: r).
+  Proof.
+    intros Hstep.
+    assert (Hne : idx <> []).
+    { intros Heq. unfold System.step in Hstep. rewrite unlocked, loaded, Heq in Hstep. discriminate. }
+    rewrite (step_CRun targets single Hne) in Hstep.
+    destruct (run_targets H (System.exec sems) idx (System.w_cache w) (negb single) (System.fuel_of idx)
+                          (System.all_or targets idx) (Ok (System.w_root w, [], [])))
+      as [[[root' ran'] log']|] eqn:Hrun; [|discriminate].
+    inversion Hstep; subst. split.
+    - apply NoDup_rev. eapply (C08_once H (System.exec sems) idx); [apply log_ok_nil|exact Hrun].
+    - intros Hs a b Hab Ha Hb. subst single. simpl in Hrun.
+      apply (C08_order H (System.exec sems) idx _ _ _ _ _ _ _ _ _ a b (run_inv_init idx) Hrun Hab);
+        apply in_rev; assumption.
+  Qed.
+End Bridge.
+
+Print Assumptions step_CRun.
+Print Assumptions step_CCheckout.
+Print Assumptions step_CStatus.
+Print Assumptions step_CCommit.
+Print Assumptions C08_step_run.
+
+(* ------------------------------------------------------------------------------------------ *)
+(* commit_stage: cycle => Err.  The index is rewritten by the traversal, but only the checksums *)
+(* change: the SHAPE (keys, input paths, output paths and the dis-recursive flags), hence the   *)
+(* dependency relation, stays that of the initial index.  In-place replacement by ins_sorted    *)
+(* needs the keys to be strictly sorted (they are: the index is built by ins_sorted).           *)
+(* ------------------------------------------------------------------------------------------ *)
+Lemma bltb_asym a b : bltb a b = true -> bltb b a = false.
+Proof.
+  revert b. induction a as [|x a IH]; intros [|y b]; simpl; try congruence.
+  destruct (N.ltb_spec x y) as [Hxy|Hxy].
+  - intros _. destruct (N.ltb_spec y x) as [Hyx|Hyx]; [lia|reflexivity].
+  - destruct (N.ltb_spec y x) as [Hyx|Hyx]; [discriminate|]. apply IH.
+Qed.
+
+Fixpoint ksorted (ks : list bytes) : Prop :=
+  match ks with
+  | [] => True
+  | k :: r => (forall k2, In k2 r -> bltb k k2 = true) /\ ksorted r
+  end.
+
+Definition oshape (arts : list artifact) : list (bytes * bool) := map (fun a => (a_path a, a_norec a)) arts.
+
+Definition sshape (s s' : stage) : Prop :=
+  oshape (s_outputs s) = oshape (s_outputs s') /\ map a_path (s_inputs s) = map a_path (s_inputs s').
+
+Definition ishape (idx idx' : index) : Prop :=
+  Forall2 (fun e e' => fst e = fst e' /\ sshape (snd e) (snd e')) idx idx'.
+
+Lemma sshape_refl s : sshape s s.
+Proof. split; reflexivity. Qed.
+Lemma sshape_sym s s' : sshape s s' -> sshape s' s.
+Proof. intros [H1 H2]. split; symmetry; assumption. Qed.
+Lemma sshape_trans s1 s2 s3 : sshape s1 s2 -> sshape s2 s3 -> sshape s1 s3.
+Proof. intros [H1 H2] [H3 H4]. split; congruence. Qed.
+
+Lemma ishape_refl idx : ishape idx idx.
+Proof. induction idx as [|e r IH]; constructor; [split; [reflexivity|apply sshape_refl]|exact IH]. Qed.
+Lemma ishape_sym idx idx' : ishape idx idx' -> ishape idx' idx.
+Proof.
+  intros Hs. induction Hs as [|e e' r r' [Hk Hsh] Hr IH]; constructor; [|exact IH].
+  split; [symmetry; exact Hk|apply sshape_sym; exact Hsh].
+Qed.
+Lemma ishape_trans idx1 idx2 idx3 : ishape idx1 idx2 -> ishape idx2 idx3 -> ishape idx1 idx3.
+Proof.
+  intros H12. revert idx3. induction H12 as [|e1 e2 r1 r2 [Hk Hsh] Hr IH]; intros idx3 H23.
+  - inversion H23. constructor.
+  - inversion H23 as [|e2' e3 r2' r3 [Hk' Hsh'] Hr']; subst. constructor.
+    + split; [congruence|eapply sshape_trans; eassumption].
+    + apply IH. exact Hr'.
+Qed.
+
+Lemma ishape_keys idx idx' : ishape idx idx' -> map fst idx = map fst idx'.
+Proof. intros Hs. induction Hs as [|e e' r r' [Hk _] Hr IH]; simpl; congruence. Qed.
+
+Lemma ishape_alookup idx idx' b stg :
+  ishape idx idx' -> alookup b idx = Some stg -> exists stg', alookup b idx' = Some stg' /\ sshape stg stg'.
+Proof.
+  intros Hs. induction Hs as [|[k v] [k' v'] r r' [Hk Hsh] Hr IH]; simpl; [discriminate|].
+  simpl in Hk, Hsh. subst k'. destruct (beqb b k).
+  - intros Heq. inversion Heq; subst. exists v'. split; [reflexivity|exact Hsh].
+  - exact IH.
+Qed.
+
+(* find_owner only looks at the shape of the outputs *)
+Lemma art_lookup_shape p arts arts' :
+  oshape arts = oshape arts' ->
+  match art_lookup p arts, art_lookup p arts' with
+  | Some a, Some a' => a_norec a = a_norec a'
+  | None, None => True
+  | _, _ => False
+  end.
+Proof.
+  revert arts'. induction arts as [|a r IH]; intros [|a' r'] Hsh; simpl in Hsh; try discriminate.
+  - simpl. exact I.
+  - inversion Hsh as [[Hp Hn Hr]]. unfold art_lookup. simpl. rewrite <- Hp.
+    destruct (beqb (a_path a) p); [exact Hn|]. apply IH. exact Hr.
+Qed.
+
+Definition osome {A} (o : option A) : bool := match o with Some _ => true | None => false end.
+
+Lemma fdo_walk_shape arts arts' fullDir :
+  oshape arts = oshape arts' ->
+  forall parts d, osome (fdo_walk parts d fullDir arts) = osome (fdo_walk parts d fullDir arts').
+Proof.
+  intros Hsh. induction parts as [|part r IH]; intros d; simpl; [reflexivity|].
+  pose proof (art_lookup_shape (GoPath.join2 d part) arts arts' Hsh) as Hl.
+  destruct (art_lookup (GoPath.join2 d part) arts) as [o|];
+    destruct (art_lookup (GoPath.join2 d part) arts') as [o'|]; try contradiction.
+  - rewrite Hl. destruct (negb (a_norec o') || beqb (GoPath.join2 d part) fullDir); [reflexivity|apply IH].
+  - apply IH.
+Qed.
+
+Definition own (idx : index) (p : bytes) : option bytes := option_map fst (find_owner idx p).
+
+Lemma ishape_own idx idx' p : ishape idx idx' -> own idx p = own idx' p.
+Proof.
+  unfold own. intros Hs. induction Hs as [|[k v] [k' v'] r r' [Hk [Hout _]] Hr IH]; simpl; [reflexivity|].
+  simpl in Hk, Hout. subst k'.
+  pose proof (art_lookup_shape p _ _ Hout) as Hl.
+  destruct (art_lookup p (s_outputs v)) as [o|]; destruct (art_lookup p (s_outputs v')) as [o'|];
+    try contradiction; [reflexivity|].
+  pose proof (fdo_walk_shape _ _ (GoPath.dir p) Hout (GoPath.split (GoPath.dir p)) []) as Hf.
+  unfold find_dir_owner.
+  destruct (fdo_walk (GoPath.split (GoPath.dir p)) [] (GoPath.dir p) (s_outputs v)) as [o|];
+    destruct (fdo_walk (GoPath.split (GoPath.dir p)) [] (GoPath.dir p) (s_outputs v')) as [o'|];
+    simpl in Hf; try discriminate; [reflexivity|exact IH].
+Qed.
+
+(* replacing the stage of an existing key by one of the same shape *)
+Lemma ishape_set idx sp stgc stg2 :
+  ksorted (map fst idx) -> alookup sp idx = Some stgc -> sshape stgc stg2 ->
+  ishape idx (ins_sorted sp stg2 idx).
+Proof.
+  induction idx as [|[k v] r IH]; simpl; intros Hsorted Hl Hsh; [discriminate|].
+  destruct Hsorted as [Hlt Hsr].
+  destruct (beqb sp k) eqn:Hk.
+  - inversion Hl; subst v. apply beqb_eq in Hk. subst k. constructor; [|apply ishape_refl].
+    split; [reflexivity|exact Hsh].
+  - assert (Hin : In sp (map fst r)) by (eapply alookup_Some_In; exact Hl).
+    rewrite (bltb_asym _ _ (Hlt sp Hin)). constructor; [split; [reflexivity|apply sshape_refl]|].
+    apply IH; assumption.
+Qed.
+
+Lemma edge_own idx a b :
+  edge idx a b <->
+  exists stg p, alookup b idx = Some stg /\ In p (map a_path (s_inputs stg)) /\ own idx p = Some a.
+Proof.
+  unfold edge, own. split.
+  - intros [stg [art [up [Hstg [Hart Hfo]]]]]. exists stg, (a_path art).
+    split; [exact Hstg|]. split; [apply in_map; exact Hart|]. rewrite Hfo. reflexivity.
+  - intros [stg [p [Hstg [Hp Hown]]]]. apply in_map_iff in Hp as [art [Hpa Hart]].
+    destruct (find_owner idx p) as [[a' up]|] eqn:Hfo; [|discriminate].
+    simpl in Hown. inversion Hown; subst a'. exists stg, art, up.
+    split; [exact Hstg|]. split; [exact Hart|]. rewrite Hpa. exact Hfo.
+Qed.
+
+Section CommitShape.
+  Variable H : bytes -> bytes.
+
+  Lemma commit_file_shape a n c st n' c' a' :
+    commit_file H a n c st = Ok (n', c', a') -> a_path a' = a_path a /\ a_norec a' = a_norec a.
+  Proof.
+    unfold commit_file.
+    (* robust against new cases in commit_file: every Ok result is [a] or [set_cs a _] *)
+    repeat (match goal with
+            | |- (if ?b then _ else _) = _ -> _ => destruct b
+            | |- match ?x with _ => _ end = _ -> _ => destruct x
+            end);
+      try discriminate; intros Heq; inversion Heq; subst; split; reflexivity.
+  Qed.
+
+  Lemma commit_node_shape a n c st n' c' a' :
+    commit_node H a n c st = Ok (n', c', a') -> a_path a' = a_path a /\ a_norec a' = a_norec a.
+  Proof.
+    destruct n; cbn [commit_node]; destruct (a_isdir a); try discriminate;
+      try (apply commit_file_shape).
+    destruct (old_contents a c) as [old|]; [|discriminate].
+    match goal with
+    | |- match ?X with _ => _ end = _ -> _ => destruct X as [[[es' c''] m]|]
+    end; [|discriminate].
+    intros Heq. inversion Heq; subst. split; reflexivity.
+  Qed.
+
+  Lemma commit_top_shape a root c st root' c' a' :
+    commit_top H a root c st = Ok (root', c', a') -> a_path a' = a_path a /\ a_norec a' = a_norec a.
+  Proof.
+    unfold commit_top. destruct (slot_of root (a_path a)) as [slot|]; [|discriminate].
+    unfold commit_art. destruct slot as [n|]; [|discriminate].
+    destruct (commit_node H a n c st) as [[[n1 c1] a1]|] eqn:Hn; [|discriminate].
+    destruct (put root (GoPath.comps (a_path a)) (Some n1)); [|discriminate].
+    intros Heq. inversion Heq; subst. eapply commit_node_shape. exact Hn.
+  Qed.
+
+  Lemma commit_arts_shape st : forall arts fs root c l root' c',
+    commit_arts H arts fs root c st = Ok (l, root', c') -> oshape l = oshape arts.
+  Proof.
+    induction arts as [|a r IH]; intros fs root c l root' c'; simpl.
+    - intros Heq. inversion Heq. reflexivity.
+    - match goal with
+      | |- match commit_top H ?A0 root c st with _ => _ end = _ -> _ =>
+        destruct (commit_top H A0 root c st) as [[[root1 c1] a1]|] eqn:Htop
+      end; [|discriminate].
+      destruct (commit_arts H r fs root1 c1 st) as [[[l2 root2] c2]|] eqn:Hrest; [|discriminate].
+      intros Heq. inversion Heq; subst. simpl. rewrite (IH _ _ _ _ _ _ Hrest).
+      apply commit_top_shape in Htop as [Hp Hn]. rewrite Hp, Hn. destruct fs; reflexivity.
+  Qed.
+
+  Lemma art_set_paths arts a : map a_path (art_set arts a) = map a_path arts.
+  Proof.
+    unfold art_set. rewrite map_map. apply map_ext. intros b.
+    destruct (beqb (a_path b) (a_path a)) eqn:Hb; [|reflexivity]. apply beqb_eq in Hb. congruence.
+  Qed.
+
+  Lemma fold_art_set_paths l : forall arts, map a_path (fold_left art_set l arts) = map a_path arts.
+  Proof.
+    induction l as [|a r IH]; intros arts; simpl; [reflexivity|]. rewrite IH. apply art_set_paths.
+  Qed.
+End CommitShape.
+
+Section CommitCycle.
+  Variable H : bytes -> bytes.
+  Variable strat : strategy.
+  Variable idx0 : index.                      (* the index the command starts with *)
+  Hypothesis sorted0 : ksorted (map fst idx0).
+
+  Lemma cm_finish_shape sp stg r st' done' :
+    cm_finish H strat sp stg r = Ok (st', done') ->
+    exists owned plain st1 done1 stg2 root3 c3,
+      r = Ok (owned, plain, st1, done1) /\
+      st' = mkI (set_stage (i_idx st1) sp stg2) root3 c3 /\ done' = sp :: done1 /\ sshape stg stg2.
+  Proof.
+    unfold cm_finish. destruct r as [[[[owned plain] st1] done1]|]; [|discriminate].
+    destruct (commit_arts H plain true (i_root st1) (i_cache st1) strat) as [[[plain' root2] c2]|]; [|discriminate].
+    destruct (commit_arts H (s_outputs stg) false root2 c2 strat) as [[[outs' root3] c3]|] eqn:Houts; [|discriminate].
+    intros Heq. inversion Heq. eexists _, _, _, _, _, _, _.
+    split; [reflexivity|]. split; [reflexivity|]. split; [reflexivity|].
+    split; simpl.
+    - symmetry. eapply commit_arts_shape. exact Houts.
+    - symmetry. apply fold_art_set_paths.
+  Qed.
+
+  Definition cm_inv (st : istate) (done : list bytes) : Prop :=
+    ishape idx0 (i_idx st) /\ core idx0 done.
+
+  Definition cm_spec (f : nat) (stack : list bytes) : Prop :=
+    forall st done sp st' done',
+      cm_inv st done -> cdisj done stack ->
+      commit_stage H f st strat done stack sp = Ok (st', done') ->
+      cm_inv st' done' /\ (exists e, done' = e ++ done) /\ cdisj done' stack /\ In sp done'.
+
+  Lemma cm_ins_post f stack :
+    cm_spec f stack ->
+    forall arts st done owned plain st' done',
+      cm_inv st done -> cdisj done stack ->
+      cm_ins H strat f stack arts st done = Ok (owned, plain, st', done') ->
+      cm_inv st' done' /\ (exists e, done' = e ++ done) /\ cdisj done' stack /\
+      (forall a op, In a arts -> own idx0 (a_path a) = Some op -> In op done').
+  Proof.
+    intros IH. induction arts as [|a r IHr]; intros st done owned plain st' done' Hinv Hd Hrun;
+      cbn [cm_ins] in Hrun.
+    - inversion Hrun; subst. split; [exact Hinv|]. split; [exists []; reflexivity|]. split; [exact Hd|].
+      intros a op Ha. destruct Ha.
+    - assert (Hown0 : own idx0 (a_path a) = own (i_idx st) (a_path a)).
+      { apply ishape_own. apply Hinv. }
+      destruct (find_owner (i_idx st) (a_path a)) as [[op up]|] eqn:Hfo.
+      + destruct (commit_stage H f st strat done stack op) as [[st1 done1]|] eqn:Hsub; [|discriminate].
+        destruct (cm_ins H strat f stack r st1 done1) as [[[[owned2 plain2] st2] done2]|] eqn:Hrest;
+          [|discriminate].
+        inversion Hrun; subst owned plain st' done'.
+        destruct (IH _ _ _ _ _ Hinv Hd Hsub) as [Hinv1 [[e1 He1] [Hd1 Hop]]].
+        destruct (IHr _ _ _ _ _ _ Hinv1 Hd1 Hrest) as [Hinv2 [[e2 He2] [Hd2 Hown2]]].
+        split; [exact Hinv2|].
+        split; [exists (e2 ++ e1); rewrite He2, He1; rewrite app_assoc; reflexivity|].
+        split; [exact Hd2|].
+        intros a' op' [Ha'|Ha'] Hown'.
+        * subst a'. rewrite Hown0 in Hown'. unfold own in Hown'. rewrite Hfo in Hown'. simpl in Hown'.
+          inversion Hown'; subst op'. rewrite He2. apply in_or_app. right. exact Hop.
+        * eapply Hown2; eassumption.
+      + destruct (cm_ins H strat f stack r st done) as [[[[owned2 plain2] st2] done2]|] eqn:Hrest;
+          [|discriminate].
+        inversion Hrun; subst owned plain st' done'.
+        destruct (IHr _ _ _ _ _ _ Hinv Hd Hrest) as [Hinv2 [He2 [Hd2 Hown2]]].
+        split; [exact Hinv2|]. split; [exact He2|]. split; [exact Hd2|].
+        intros a' op' [Ha'|Ha'] Hown'.
+        * subst a'. rewrite Hown0 in Hown'. unfold own in Hown'. rewrite Hfo in Hown'. discriminate.
+        * eapply Hown2; eassumption.
+  Qed.
+
+  Lemma cm_post : forall f stack, cm_spec f stack.
+  Proof.
+    induction f as [|f IH]; intros stack st done sp st' done' Hinv Hd Hrun.
+    { simpl in Hrun. discriminate. }
+    rewrite commit_stage_S in Hrun.
+    destruct (mem sp done) eqn:Hdone.
+    { inversion Hrun; subst. split; [exact Hinv|]. split; [exists []; reflexivity|]. split; [exact Hd|].
+      apply mem_In. exact Hdone. }
+    destruct (mem sp stack) eqn:Hmem; [discriminate|].
+    destruct (alookup sp (i_idx st)) as [stg|] eqn:Hstg; [|discriminate].
+    apply cm_finish_shape in Hrun
+      as [owned [plain [st1 [done1 [stg2 [root3 [c3 [Hins [Hst' [Hdone' Hsh2]]]]]]]]]].
+    subst st' done'.
+    assert (Hd0 : cdisj done (sp :: stack)).
+    { intros s [Hs|Hs]; [subst s; apply mem_notIn; exact Hdone|apply Hd; exact Hs]. }
+    destruct (cm_ins_post f (sp :: stack) (IH (sp :: stack)) _ _ _ _ _ _ _ Hinv Hd0 Hins)
+      as [[Hish1 Hc1] [[e1 He1] [Hd1 Hown1]]].
+    (* the stage of sp in the initial index, and in the index after the loop *)
+    destruct Hinv as [Hish Hc].
+    destruct (ishape_alookup _ _ _ _ (ishape_sym _ _ Hish) Hstg) as [stg0 [Hstg0 Hsh0]].
+    destruct (ishape_alookup _ _ _ _ Hish1 Hstg0) as [stgc [Hstgc Hshc]].
+    split; [split|split; [|split]].
+    - simpl. eapply ishape_trans; [exact Hish1|].
+      apply (ishape_set (i_idx st1) sp stgc stg2).
+      + rewrite <- (ishape_keys _ _ Hish1). exact sorted0.
+      + exact Hstgc.
+      + eapply sshape_trans; [apply sshape_sym; exact Hshc|].
+        eapply sshape_trans; [apply sshape_sym; exact Hsh0|exact Hsh2].
+    - apply core_finish; [exact Hc1|apply Hd1; left; reflexivity|].
+      intros a Hedge. apply edge_own in Hedge as [stg0' [p [Hstg0' [Hp Hown]]]].
+      rewrite Hstg0 in Hstg0'. inversion Hstg0'; subst stg0'.
+      destruct Hsh0 as [_ Hinp]. rewrite <- Hinp in Hp.
+      apply in_map_iff in Hp as [art [Hpa Hart]]. apply (Hown1 art a Hart). rewrite Hpa. exact Hown.
+    - exists (sp :: e1). simpl. congruence.
+    - intros s Hs [Heq|Hin].
+      + subst s. apply mem_notIn in Hmem. contradiction.
+      + apply (Hd1 s); [right; exact Hs|exact Hin].
+    - left. reflexivity.
+  Qed.
+
+  Lemma commit_targets_post fuel : forall ts st done st' done',
+    cm_inv st done ->
+    commit_targets H strat fuel ts (Ok (st, done)) = Ok (st', done') ->
+    cm_inv st' done' /\ (exists e, done' = e ++ done) /\ forall t, In t ts -> In t done'.
+  Proof.
+    induction ts as [|t r IH]; intros st done st' done' Hinv Hrun.
+    - inversion Hrun; subst. split; [exact Hinv|]. split; [exists []; reflexivity|]. intros t Ht. destruct Ht.
+    - rewrite commit_targets_cons in Hrun.
+      destruct (commit_stage H fuel st strat done [] t) as [[st1 done1]|] eqn:Hone.
+      2:{ rewrite commit_targets_Err in Hrun. discriminate. }
+      destruct (cm_post fuel [] _ _ _ _ _ Hinv (cdisj_nil done) Hone) as [Hinv1 [[e1 He1] [_ Ht1]]].
+      destruct (IH _ _ _ _ Hinv1 Hrun) as [Hinv2 [[e2 He2] Hts2]]. split; [exact Hinv2|].
+      split; [exists (e2 ++ e1); rewrite He2, He1; rewrite app_assoc; reflexivity|].
+      intros t' [Ht'|Ht']; [|apply Hts2; exact Ht'].
+      subst t'. rewrite He2. apply in_or_app. right. exact Ht1.
+  Qed.
+
+  (* the dependency relation is the one of the initial index idx0 *)
+  Theorem C08_commit_cycle fuel st done stack t a :
+    ishape idx0 (i_idx st) -> core idx0 done -> cdisj done stack ->
+    clos_refl_trans bytes (edge idx0) a t -> clos_trans bytes (edge idx0) a a ->
+    commit_stage H fuel st strat done stack t = Err.
+  Proof.
+    intros Hish Hc Hd Hup Hcyc.
+    destruct (commit_stage H fuel st strat done stack t) as [[st' done']|] eqn:Hrun; [|reflexivity].
+    exfalso. destruct (cm_post fuel stack _ _ _ _ _ (conj Hish Hc) Hd Hrun) as [[_ Hc'] [_ [_ Ht]]].
+    apply upstream_clos in Hup. apply path_clos_trans in Hcyc.
+    eapply core_no_cycle_upstream; eassumption.
+  Qed.
+
+  (* as System.step (CCommit) runs it *)
+  Theorem C08_commit_cycle_targets fuel ts root c t a :
+    In t ts -> clos_refl_trans bytes (edge idx0) a t -> clos_trans bytes (edge idx0) a a ->
+    commit_targets H strat fuel ts (Ok (mkI idx0 root c, [])) = Err.
+  Proof.
+    intros Ht Hup Hcyc.
+    destruct (commit_targets H strat fuel ts (Ok (mkI idx0 root c, []))) as [[st' done']|] eqn:Hrun;
+      [|reflexivity].
+    exfalso.
+    destruct (commit_targets_post fuel ts _ _ _ _ (conj (ishape_refl idx0) (core_nil idx0)) Hrun)
+      as [[_ Hc'] [_ Hts]].
+    apply upstream_clos in Hup. apply path_clos_trans in Hcyc.
+    eapply core_no_cycle_upstream; [exact Hc'|apply Hts; exact Ht|exact Hup|exact Hcyc].
+  Qed.
+End CommitCycle.
+
+Print Assumptions C08_commit_cycle.
+Print Assumptions C08_commit_cycle_targets.
